@@ -107,6 +107,40 @@ def run(prop: str, tier: str, seed: int) -> int:
                       "decodes": [{"x": x, "plan": decode(x, days, n, rng)}]})
         rep.family("tight-day-budget", 1, 1)
         rep.nontrivial += 1
+    # through the public objects: GameEncoding(instance) decoding into GamePlan(instance) / the space's own plan,
+    # for instances with 1, 2, 3 and 4 rounds - the plan must have (n - 1) * rounds days, the encoding's search space
+    # must hold every pairing `rounds` times (also when it is asked again after the instance's rounds were changed,
+    # as the library's own doctest does)
+    m = tp.mods()
+    for k in range({"quick": 60, "thorough": 500}[tier]):
+        n = rng.choice([2, 4, 4, 6, 8])
+        r = rng.choice([1, 1, 2, 3, 3, 4])
+        if (n, r) == (2, 1):
+            r = 3         # one game only: moptipy's permutation space wants at least two different values
+        inst = tp.make_instance(n, r)
+        enc = m["GameEncoding"](inst)
+        space = enc.search_space()
+        bp = [small(v) for v in space.blueprint]
+        x = bp[:]
+        rng.shuffle(x)
+        y = m["GamePlan"](inst) if rng.random() < 0.5 else m["GamePlanSpace"](inst).create()
+        y[:, :] = np.array([[rng.randint(-n, n) for _ in range(n)] for _ in range(y.shape[0])]) if y.shape[0] else 0
+        enc.decode(np.array(x, dtype=np.int64), y)
+        c = {"id": f"public-{k}", "n": n, "rounds": r, "days": small(int(y.shape[0])), "bp": bp, "real": 1,
+             "decodes": [{"x": x, "plan": [[small(v) for v in row] for row in np.asarray(y).tolist()]}]}
+        cases.append(c)
+        if k % 3 == 0:      # the same encoding object after the number of rounds of its instance was changed
+            r2 = rng.choice([q for q in (1, 2, 3, 4) if q != r and (n, q) != (2, 1)])
+            old = inst.rounds
+            try:
+                inst.rounds = r2
+                bp2 = [small(v) for v in enc.search_space().blueprint]
+            finally:
+                inst.rounds = old
+            cases.append({"id": f"public-{k}-rounds-changed", "n": n, "rounds": r2, "days": (n - 1) * r2, "bp": bp2,
+                          "decodes": []})
+        rep.family("public objects (GameEncoding / GamePlan, rounds 1..4)", 1, 1)
+        rep.nontrivial += 1
     # many teams: the shipped instances have up to 40 teams; word sizes (32, 64) and the int8 edge of team ids
     big_n = {"quick": [31, 32, 33, 34, 40, 64, 65], "thorough": [31, 32, 33, 34, 36, 40, 63, 64, 65, 66, 127, 128, 129]}[tier]
     for n in big_n:
